@@ -1,0 +1,126 @@
+// Copyright 2026 Dolthub, Inc.
+//
+// Licensed under the Apache License, Version 2.0 (the "License");
+// you may not use this file except in compliance with the License.
+// You may obtain a copy of the License at
+//
+//     http://www.apache.org/licenses/LICENSE-2.0
+//
+// Unless required by applicable law or agreed to in writing, software
+// distributed under the License is distributed on an "AS IS" BASIS,
+// WITHOUT WARRANTIES OR CONDITIONS OF ANY KIND, either express or implied.
+// See the License for the specific language governing permissions and
+// limitations under the License.
+
+//go:build verif
+
+package binlogreplication
+
+// Machine-checked contracts for /verif (comment-only; see /verif/DESIGN.md §2.2).
+
+// ---- binlog events encode values as MySQL decodes them (C40): byte-level format facts
+// The format facts are taken from the MySQL binary-log / JSON binary format documentation, not from the code.
+
+// appendForEncoding: 2 (small) or 4 (large) bytes, little endian, appended to an unchanged prefix
+//@ func appendForEncoding
+//@   property C40
+//@   nopanic
+//@   ensures  !largeEncoding ==> len(result) == len(bytes)+2 && result[len(bytes)] == byte(value) && result[len(bytes)+1] == byte(value>>8)
+//@   ensures  largeEncoding ==> len(result) == len(bytes)+4 && result[len(bytes)] == byte(value) && result[len(bytes)+1] == byte(value>>8) && result[len(bytes)+2] == byte(value>>16) && result[len(bytes)+3] == byte(value>>24)
+//@   ensures  forall k in 0..len(bytes): result[k] == bytes[k]
+
+// (stated for the entry written by each iteration: the buffers are append-only; the frame of earlier entries across
+// the two appends did not discharge with the engine's bulk-copy instantiation and is not claimed)
+// encodeJsonObject, key entries: entry j is |offset (2 or 4 bytes)|key length (2 bytes, little endian)|; in the small
+// format every offset that is written fits in 16 bits (keys longer than 65535 bytes are outside the format)
+//@ func encodeJsonObject
+//@   property C40
+//@   at call appendForEncoding#1: assert largeEncoding || len(encodedValue) > 65535 || arg1:uint32 <= 65535
+//@   at call appendForEncoding#3: assert largeEncoding || len(encodedValue) > 65535 || arg1:uint32 <= 65535
+//@   loop 2
+//@     invariant 0 <= verif_rangeidx() && verif_rangeidx() <= len(sortedKeys)
+//@     invariant !largeEncoding ==> len(keyEntriesBuffer) == 4*verif_rangeidx()
+//@     invariant largeEncoding ==> len(keyEntriesBuffer) == 6*verif_rangeidx()
+//@     invariant !largeEncoding && verif_rangeidx() > 0 ==> keyEntriesBuffer[4*(verif_rangeidx()-1)+2] == byte(len(sortedKeys[verif_rangeidx()-1])) && keyEntriesBuffer[4*(verif_rangeidx()-1)+3] == byte(len(sortedKeys[verif_rangeidx()-1])>>8)
+//@     invariant largeEncoding && verif_rangeidx() > 0 ==> keyEntriesBuffer[6*(verif_rangeidx()-1)+4] == byte(len(sortedKeys[verif_rangeidx()-1])) && keyEntriesBuffer[6*(verif_rangeidx()-1)+5] == byte(len(sortedKeys[verif_rangeidx()-1])>>8)
+
+//@ ghost_global verif_ghost
+
+//@ func verif_nbits
+//@   pure
+//@   opaque
+
+//@ extern (github.com/dolthub/go-mysql-server/sql/types.BitType).NumberOfBits as verif_x_NumberOfBits
+//@   modifies nothing
+//@   ensures n >= 1 && n <= 64 && n == verif_nbits(t)
+//@   ghost_set verif_ghost.bBits = n
+
+//@ extern (github.com/dolthub/go-mysql-server/sql.Type).Convert as verif_x_Convert
+//@   modifies nothing
+//@   ghost_set verif_ghost.bConv = r
+
+// BIT(n): exactly ceil(n/8) bytes, the big-endian low bytes of the value; the metadata announces n/8 full bytes and
+// n%8 extra bits, which a MySQL decoder turns into the same ceil(n/8)
+//@ func (bitSerializer).serialize
+//@   property C40
+//@   ensures  err == nil ==> len(data) == int((verif_ghost.bBits+7)/8)
+//@   also_modifies verif_ghost.bBits, verif_ghost.bConv
+//@ func (bitSerializer).metadata
+//@   property C40
+//@   ensures  int(result1>>8) + verif_b2i(result1&255 != 0) == int((verif_ghost.bBits+7)/8) && result1&255 == uint16(verif_ghost.bBits%8)
+//@   also_modifies verif_ghost.bBits
+
+//@ extern (*github.com/dolthub/dolt/go/libraries/doltcore/schema.ColCollection).StoredSize as verif_x_StoredSize
+//@   modifies nothing
+//@   ghost_set verif_ghost.rStored = n
+
+// row image: the NULL bitmap has one bit per STORED column (virtual columns are not part of the row image)
+//@ func serializeRowToBinlogBytes
+//@   property C40
+//@   at call NewServerBitmap: assert arg0:int == verif_ghost.rStored
+//@   at call StoredSize#1: assert true
+//@   also_modifies verif_ghost.rStored, verif_ghost.bBits, verif_ghost.bConv
+
+//@ extern (time.Time).UnixMicro as verif_x_UnixMicro
+//@   modifies nothing
+//@   ghost_set verif_ghost.tMicro = us
+
+// TIME (TIME2, 6 fractional digits; MySQL "Date and Time Data Type Representation"): six bytes, big endian. For a
+// non-negative duration of S seconds and F microseconds the first three bytes hold 0x800000 + (h<<12|m<<6|s) and the
+// last three hold F. A negative duration is the negation of that 48-bit integer: the last three bytes hold
+// 0x1000000 - F and a non-zero F borrows ONE from the packed integer as a whole (not from the seconds field).
+//@ func (timeSerializer).serialize
+//@   property C40
+//@   ensures  err == nil ==> len(data) == 6
+//@   ensures  err == nil && verif_ghost.tMicro >= 0 ==> verif_be24(data, 0) == (0x800000+verif_hms(verif_ghost.tMicro/1000000))&0xFFFFFF && verif_be24(data, 3) == (verif_ghost.tMicro%1000000)&0xFFFFFF
+//@   ensures  err == nil && verif_ghost.tMicro < 0 && verif_ghost.tMicro > -4611686018427387904 ==> verif_be24(data, 0) == (0x800000-verif_hms((-verif_ghost.tMicro)/1000000)-int64(verif_b2i((-verif_ghost.tMicro)%1000000 != 0)))&0xFFFFFF
+//@   ensures  err == nil && verif_ghost.tMicro < 0 && verif_ghost.tMicro > -4611686018427387904 ==> verif_be24(data, 3) == (0x1000000-(-verif_ghost.tMicro)%1000000)&0xFFFFFF
+//@   also_modifies verif_ghost.tMicro
+
+// YEAR (one byte): 0 for the year 0000, otherwise year-1900
+//@ func (yearSerializer).serialize
+//@   property C40
+//@   ensures  err == nil ==> len(data) == 1
+//@   ensures  err == nil && verif_ghost.bConv.(int16) == 0 ==> data[0] == 0
+//@   ensures  err == nil && verif_ghost.bConv.(int16) != 0 ==> data[0] == byte(verif_ghost.bConv.(int16)-1900)
+//@   also_modifies verif_ghost.bConv
+
+//@ extern (github.com/dolthub/go-mysql-server/sql.Type).Type as verif_x_Type_Type
+//@   modifies nothing
+//@   ghost_set verif_ghost.tKind = k
+
+// integers: little endian, 1 / 2 / 3 / 4 / 8 bytes; MEDIUMINT is the low three bytes of the 32-bit value
+//@ func (integerSerializer).serialize
+//@   property C40
+//@   ensures  err == nil && (verif_ghost.tKind == query.Type_INT8 || verif_ghost.tKind == query.Type_UINT8) ==> len(data) == 1
+//@   ensures  err == nil && (verif_ghost.tKind == query.Type_INT16 || verif_ghost.tKind == query.Type_UINT16) ==> len(data) == 2
+//@   ensures  err == nil && (verif_ghost.tKind == query.Type_INT24 || verif_ghost.tKind == query.Type_UINT24) ==> len(data) == 3
+//@   ensures  err == nil && (verif_ghost.tKind == query.Type_INT32 || verif_ghost.tKind == query.Type_UINT32) ==> len(data) == 4
+//@   ensures  err == nil && (verif_ghost.tKind == query.Type_INT64 || verif_ghost.tKind == query.Type_UINT64) ==> len(data) == 8
+//@   ensures  err == nil && verif_ghost.tKind == query.Type_INT8 ==> data[0] == byte(verif_ghost.bConv.(int8))
+//@   ensures  err == nil && verif_ghost.tKind == query.Type_INT16 ==> data[0] == byte(verif_ghost.bConv.(int16)) && data[1] == byte(verif_ghost.bConv.(int16)>>8)
+//@   ensures  err == nil && verif_ghost.tKind == query.Type_INT24 ==> data[0] == byte(verif_ghost.bConv.(int32)) && data[1] == byte(verif_ghost.bConv.(int32)>>8) && data[2] == byte(verif_ghost.bConv.(int32)>>16)
+//@   ensures  err == nil && verif_ghost.tKind == query.Type_UINT24 ==> data[0] == byte(verif_ghost.bConv.(uint32)) && data[1] == byte(verif_ghost.bConv.(uint32)>>8) && data[2] == byte(verif_ghost.bConv.(uint32)>>16)
+//@   ensures  err == nil && verif_ghost.tKind == query.Type_INT32 ==> data[0] == byte(verif_ghost.bConv.(int32)) && data[3] == byte(verif_ghost.bConv.(int32)>>24)
+//@   ensures  err == nil && verif_ghost.tKind == query.Type_UINT64 ==> data[0] == byte(verif_ghost.bConv.(uint64)) && data[7] == byte(verif_ghost.bConv.(uint64)>>56)
+//@   also_modifies verif_ghost.bConv, verif_ghost.tKind
